@@ -1369,6 +1369,9 @@ func (c *control) dirAS(colon, at bool, params []any, p *slip.Printer) {
 	colinc = c.getIntParam(1, params, colinc, true)
 	minpad = c.getIntParam(2, params, minpad, true)
 	padchar = c.getCharParam(3, params, padchar)
+	if colinc < 1 {
+		slip.ErrorPanic(c.scope, 0, "the colinc parameter, %d, must be positive at %d of %q", colinc, c.pos, c.str)
+	}
 	for ; 0 < minpad; minpad-- {
 		pad = append(pad, padchar...)
 	}
